@@ -29,7 +29,10 @@ ASSUMPTIONS = ["Go int arithmetic modelled on unbounded Z (day numbers < 2^31)",
                "fewer events per field than array slots (299 fertiliser, 199 tillage, 499 irrigation): beyond that Go panics",
                "strconv.ParseFloat of the decimal tokens = python float() (both correctly rounded)",
                "tillage dates outside (sowing, harvest] of every crop (inside: the run is aborted with an error — not modelled)",
-               "automation switches off for C10 runs (AUTOFERT replaces the fertiliser file, AUTOIRRI the irrigation file)"]
+               "scheduled events: automation switches off (AUTOFERT replaces the fertiliser file, AUTOIRRI the irrigation file); the organic "
+               "fertiliser of automatic management and the crop-skip branch are covered by separate runs with AUTOFERT on",
+               "crop skip: cursor, ZTDG[k] and the next tillage date are tied; the pool changes of the skip happen inside the harvest call "
+               "(resid) and are not separable there"]
 
 FMTS = ["DateDEshort", "DateDElong", "DateENshort", "DateENlong"]
 D0 = datetime.date(1900, 12, 31)
@@ -285,9 +288,13 @@ def write_project(ex, case):
     shutil.rmtree(dst, ignore_errors=True)
     shutil.copytree(src, dst)
     for fn in os.listdir(dst):
-        if "_ex1" in fn:
+        if fn.startswith("init_"):
+            os.remove(os.path.join(dst, fn))      # no measurement file (other checks add one to the scratch copy of ex1)
+        elif "_ex1" in fn:
             os.rename(os.path.join(dst, fn), os.path.join(dst, fn.replace("_ex1", "_" + name)))
     f, fid = case["fmt"], case["fid"]
+    # the shipped measurement file (other checks put a measurement day into the scratch copy of ex1; its dates are EN-long)
+    shutil.copy(os.path.join(REPO, "examples", "project", "ex1", "endit_ex1.txt"), os.path.join(dst, "endit_%s.txt" % name))
     open(os.path.join(dst, "managementout_conf.yml"), "w").write(MGMT_CONF)
     fl = layout(case, "fert", ["%-9s %5s %-3s %s" % (fid, a, nm, fmt_date(numday(d), f)) for (d, a, nm) in case["fert"]])
     tl = layout(case, "till", ["%-9s %2d %d   %s" % (fid, dep, ty, fmt_date(numday(d), f)) for (d, dep, ty) in case["till"]])
@@ -471,7 +478,29 @@ def correspond(ctx):
                                      "differs": [MASK[j] for j in range(10) if mask >> j & 1],
                                      "line": "c10_%d" % cs["idx"], "fert": cs["fert"], "till": cs["till"], "irr": cs["irr"],
                                      "begin": str(cs["begin"]), "end": str(cs["end"]), "format": FMTS[cs["fmt"]]})
-    c.cases = len(good) + len(drecs)
+    # organic fertiliser of automatic management and the crop-skip branch: runs with automatic fertilisation
+    from props import c16
+    orc, ocases, oerr, _ = c16.org_run(ctx)
+    if orc != 0:
+        c.mismatches.append({"kind": "harness-crash", "cmd": "c16 (organic runs)", "stderr": oerr[-1500:]})
+    else:
+        oc = Corr()
+        groups = c16.build_records(ocases, oc, table)
+        c16.eval_groups(ctx, oc, groups, "C10org", only=("af", "hcur", "odueng"))
+        c.mismatches += oc.mismatches
+        g = {name: lst for name, lst, _, _, _ in groups}
+        for _, cs_, r in g["af"]:
+            if r["replay"] == "differs":
+                c.mismatches.append({"kind": "organic-payload-replay", "case": cs_["name"], "record": r})
+        c.dist["organic-runs"] = len([x for x in ocases if x.get("final")])
+        c.dist["organic-after-harvest"] = sum(1 for _, _, r in g["af"] if r["h_fire"])
+        c.dist["organic-after-sowing"] = sum(1 for _, _, r in g["af"] if r["s_fire"])
+        c.dist["organic-replays-ok"] = sum(1 for _, _, r in g["af"] if r["replay"] == "ok")
+        c.dist["crop-skips"] = sum(1 for _, _, r in g["hcur"] if r["adv"] >= 2)
+        c.dist["harvest-cursor-records"] = len(g["hcur"])
+        c.dist["organic-split-records"] = len(g["odueng"])
+        c.cases += oc.cases
+    c.cases += len(good) + len(drecs)
     c.nontrivial = len(set((cs["fmt"], len(cs["fert"]), len(cs["till"]), len(cs["irr"]), cs["special"]) for cs in good)) + len(set(r["name"] for r in drecs))
     c.samples = ["c10_%d %s %s..%s fert=%s" % (cs["idx"], FMTS[cs["fmt"]], cs["begin"], cs["end"], [(str(numday(d)), a, n) for d, a, n in cs["fert"][:4]])
                  for cs in good[:4]]
@@ -630,6 +659,12 @@ def oracle(ctx, search):
         if run["regen_unexplained"] or run["dsumm_unexplained"]:
             fail("unscheduled-jump", "%d days with rain changed without irrigation, %d Nitro calls changed DSUMM/NH4Sum without a scheduled event"
                  % (run["regen_unexplained"], run["dsumm_unexplained"]))
+    from props import c16
+    orc, ocases, oerr, _ = c16.org_run(ctx)
+    if orc == 0:
+        ofails, ochecked = c16.org_oracle(ocases, table)
+        fails += ofails
+        ctx.extra["oracle_organic_checks"] = ochecked
     ctx.extra["oracle_events_checked"] = checked
     ctx.extra["oracle_runs"] = len(cases)
     return fails
